@@ -20,6 +20,8 @@ func c10CoqOp(op c10Op) string {
 		return fmt.Sprintf("OBatch %d", op.K)
 	case "adv":
 		return fmt.Sprintf("OAdv %d", op.D)
+	case "advbatch":
+		return fmt.Sprintf("OAdvBatch %d %d", op.D, op.K)
 	case "read":
 		return fmt.Sprintf("ORead %d", op.I)
 	case "readall":
